@@ -124,7 +124,7 @@ RULE = ("C12 generator: exponents 0..300 and all patterns 2^a*(2^b+..) x bases {
         "every exponent type and form; BigUint exponents at u64/u128 edges | non-trivial: |base| >= 2 and exponent >= 2")
 
 # ---- in-Coq cross-check of the extraction -------------------------------------------------
-COQ_IMPORTS = "Base PgrLoop Pow Extracted"
+COQ_IMPORTS = "Base PgrLoop Pow Mul Extracted"
 
 def coq_term(case, model):
     toks = case.split(" ")
@@ -135,14 +135,14 @@ def coq_term(case, model):
     ref = form in ("rv", "rr") or kind == "pow_u32"
     if op.startswith("u.pow_big"):
         f = "upow_big_ref" if ref else "upow_big"
-        return "%s spec_bmul pgr_pow %s %s" % (f, coq_list(a[0]), coq_list(a[1])), coq_result(model)
+        return "%s (Mul.umul Extracted.mul) pgr_pow %s %s" % (f, coq_list(a[0]), coq_list(a[1])), coq_result(model)
     if op.startswith("i.pow_big"):
         f = "ipow_big_ref" if ref else "ipow_big"
-        return "%s spec_bmul pgr_pow %s %s" % (f, coq_bigint(a[0]), coq_list(a[1])), coq_result(model)
+        return "%s (Mul.umul Extracted.mul) pgr_pow %s %s" % (f, coq_bigint(a[0]), coq_list(a[1])), coq_result(model)
     if op.startswith("u.pow"):
         f = "upow_prim_ref" if ref else "upow_prim"
-        return "%s spec_bmul pgr_pow %s %d" % (f, coq_list(a[0]), coq_scalar(a[1])[1]), coq_result(model)
+        return "%s (Mul.umul Extracted.mul) pgr_pow %s %d" % (f, coq_list(a[0]), coq_scalar(a[1])[1]), coq_result(model)
     if op.startswith("i.pow"):
         f = "ipow_prim_ref" if ref else "ipow_prim"
-        return "%s spec_bmul pgr_pow %s %d" % (f, coq_bigint(a[0]), coq_scalar(a[1])[1]), coq_result(model)
+        return "%s (Mul.umul Extracted.mul) pgr_pow %s %d" % (f, coq_bigint(a[0]), coq_scalar(a[1])[1]), coq_result(model)
     return None
